@@ -480,8 +480,16 @@ def stepWire (d : DState) (toks : List String) (impl : String) : DState × Verdi
       let (model, _) := match decodeMsg w with
         | .ok m => ("ok " ++ showMsg m ++ " | " ++ showJ (encodeMsg m), some m)
         | .error e => (showDErr e ++ " | -", none)
+      -- a response (no "method") without id must be rejected
+      let respNoId : Bool := match w with
+        | .obj kvs => noDupKeys w && lookup wireDecode_VersionTag_name kvs == some (.str wireVersion) &&
+            (lookup wireDecode_Method_name kvs).isNone && (lookup wireDecode_ID_name kvs).isNone &&
+            validErr (lookup wireDecode_Error_name kvs)
+        | _ => false
       let viol :=
-        if d.pid == "C19" && validWire w && noDupKeys w then
+        if d.pid == "C19" && respNoId then
+          (if impl.startsWith "ok " then some (pfx d "response_needs_id: a response without id is accepted by DecodeMessage") else none)
+        else if d.pid == "C19" && validWire w && noDupKeys w then
           match impl.splitOn " | " with
           | [a, b] =>
             if !a.startsWith "ok " then some (pfx d "encode_decode_preserves: a valid wire message is rejected by DecodeMessage")
@@ -716,6 +724,9 @@ def stepWire (d : DState) (toks : List String) (impl : String) : DState × Verdi
               let v := match implMsg, elems with
                 | some m, e :: _ => same m e "first"
                 | _, _ => none
+              let v := if v.isNone && implQ != elems.length - 1 then
+                  some (pfx d s!"batch_roundtrip: Read took a frame of {elems.length} messages but queued {implQ} for the following reads")
+                else v
               let d := { d with mexpect := (elems.drop 1).take implQ }
               let d := if isBatch && calls ≠ [] then { d with mopen := d.mopen ++ [{ slots := calls.map (fun c => (c, none)), hasNotif := hasNotif }] } else d
               (d, v, none)
